@@ -15,7 +15,7 @@ RULE = ("Each case = one whole simulated Pynguin run with type tracing ON (so re
         "callable, every generated type) is queried before the update (warming the caches) and again after it. For "
         "each query: the cached offer must equal a from-scratch recomputation on the CURRENT generator map and type "
         "graph; every offered generator must still be in the map; its return type must be accepted by is_maybe_subtype "
-        "AND by an independent reference relation (issubclass on the raw classes, one union member suffices, tuples "
+        "AND by an independent reference relation (issubclass on the raw classes plus the PEP 484 numeric tower, one union member suffices, tuples "
         "element-wise at equal length, invariant list/set/dict arguments, Any matches); is_maybe_subtype must not "
         "accept a (generated type, requested type) pair the reference rejects; and the other provider flavour (same "
         "map, uncached) must offer the same set. At the end every pair seen is re-queried through the cached TypeSystem "
@@ -81,7 +81,9 @@ def ref_maybe_subtype(left, right) -> bool:
             return False
         lr, rr = left.type.raw_type, right.type.raw_type
         try:
-            if not issubclass(lr, rr):
+            # PEP 484 numeric tower (the type system enables it): int is acceptable for float, float for complex
+            tower = (rr is float and issubclass(lr, int)) or (rr is complex and issubclass(lr, (int, float)))
+            if not tower and not issubclass(lr, rr):
                 return False
         except TypeError:
             return False
@@ -100,6 +102,8 @@ class GeneratorMonitor(Monitor):
         self.pairs = set()
         self.panel_queries = 0
         self.ref_pairs = 0
+        self.class_queries = 0
+        self.modifier_queries = 0
         self.stricter_than_reference = 0
         self.panel_budget = 60  # updates per run around which the whole panel is queried
 
@@ -147,10 +151,19 @@ class GeneratorMonitor(Monitor):
                 run.hist.add("urt", str(accessible), str(accessible.inferred_signature.return_type))
                 if self_c is base and mon.panel_budget > 0:
                     mon.panel_budget -= 1
-                    for t in panel():
+                    types = panel()
+                    for t in types:
                         sel(provider, t, live=False)
                         if run.violation:
                             break
+                    # ... and only then the cluster's other type-directed query (read-only: which callables modify
+                    # a T), so that answers cached by the queries above are still around if it changes anything
+                    for t in types:
+                        try:
+                            base.get_modifiers_for(t)
+                            mon.modifier_queries += 1
+                        except Exception:  # noqa: BLE001
+                            pass
 
         run.patch(type(base), "update_return_type", urt)
         # In this code base the test factory asks the cluster (exact-type lookup in the provider's map) and the
@@ -229,27 +242,47 @@ class GeneratorMonitor(Monitor):
 
 
     def finish(self, run):
+        """Cached TypeSystem answers vs. a recomputation on the final graph.  The cached answers are collected first,
+        then EVERY lru cache of the type system is cleared (the visitors recurse through the cached methods, so
+        calling __wrapped__ alone would recompute only the outermost level), then everything is asked again."""
         ts = self.ts
         T = type(ts)
-        for a, b in sorted(self.pairs, key=str):
-            for name in ("is_subtype", "is_maybe_subtype"):
-                fn = getattr(T, name)
-                try:
-                    cached = fn(ts, a, b)
-                    fresh = fn.__wrapped__(ts, a, b)
-                except Exception:  # noqa: BLE001
-                    continue
-                if cached != fresh:
-                    run.violate(f"typesystem-cache-stale:{name}", f"{name}({a}, {b}): cached {cached}, recomputed {fresh}")
-                    return
+        nodes = list(ts._graph.nodes) if hasattr(ts, "_graph") else []  # noqa: SLF001
+        pairs = sorted(self.pairs, key=str)
+        cached: dict = {}
+
+        def ask(tag, fn, *args):
             try:
-                cached = T.subtype_distance(ts, b, a)
-                fresh = T.subtype_distance.__wrapped__(ts, b, a)
+                v = fn(ts, *args)
             except Exception:  # noqa: BLE001
-                continue
-            if cached != fresh:
-                run.violate("typesystem-cache-stale:subtype_distance", f"subtype_distance({b}, {a}): cached {cached}, "
-                                                                       f"recomputed {fresh}")
+                return None
+            return frozenset(v) if isinstance(v, (set, frozenset)) or hasattr(v, "freeze") else v
+
+        def sweep(store):
+            for node in nodes:
+                for name in ("get_subclasses", "get_superclasses"):
+                    fn = getattr(T, name, None)
+                    if fn is not None:
+                        store[name, node] = ask(name, fn, node)
+            for a_, b_ in pairs:
+                for name in ("is_subtype", "is_maybe_subtype"):
+                    store[name, a_, b_] = ask(name, getattr(T, name), a_, b_)
+                store["subtype_distance", b_, a_] = ask("subtype_distance", T.subtype_distance, b_, a_)
+
+        sweep(cached)
+        for name in dir(T):
+            fn = getattr(T, name, None)
+            if callable(getattr(fn, "cache_clear", None)):
+                fn.cache_clear()
+        fresh: dict = {}
+        sweep(fresh)
+        self.class_queries = len(cached)
+        for key, val in cached.items():
+            if fresh.get(key) != val:
+                what = ", ".join(getattr(x, "full_name", None) or str(x) for x in key[1:])
+                run.violate(f"typesystem-cache-stale:{key[0]}",
+                            f"{key[0]}({what}): cached answer {str(val)[:120]}, recomputation on the final graph with "
+                            f"all caches cleared {str(fresh.get(key))[:120]}")
                 return
 
 
@@ -259,7 +292,7 @@ def run_case(case: dict) -> dict:
     res["nontrivial"] = mon.updates >= 1 and (mon.selections_after_update >= 20 or mon.panel_queries >= 20)
     res["probes"].update(generator_selections=mon.selections, return_type_updates=mon.updates,
                          selections_after_first_update=mon.selections_after_update, type_pairs_rechecked=len(mon.pairs),
-                         panel_queries_around_updates=mon.panel_queries, pairs_compared_with_reference=mon.ref_pairs,
+                         panel_queries_around_updates=mon.panel_queries, pairs_compared_with_reference=mon.ref_pairs, class_level_cache_queries_rechecked=mon.class_queries, modifier_queries=mon.modifier_queries,
                          pairs_where_type_system_is_stricter_than_reference=mon.stricter_than_reference)
     res["faults"]["runtime_generator_map_update"] = mon.updates
     if case["run_seed"] % 11 == 0:
